@@ -1176,10 +1176,13 @@ fn topic_atoms() -> Vec<TopicFilter> {
         TopicFilter::Tenant(1),
         ms(&["cpu"]),
         ms(&["cpu", "mem"]),
+        // lists in no particular order (the variant is public: nothing sorts or de-duplicates it)
+        ms(&["net", "mem", "cpu"]),
         TopicFilter::Shard("s2".into()),
         TopicFilter::Tenant(2),
         ms(&["mem"]),
         ms(&[]),
+        ms(&["mem", "cpu", "cpu"]),
     ]
 }
 
@@ -1213,8 +1216,8 @@ fn topic_filters(tier: &str) -> Vec<TopicFilter> {
         d1.push(TopicFilter::Or(l));
     }
     out.extend(d1.iter().cloned());
-    // depth 2: members are atoms or depth-1 trees with <= 2 members (quick: over the first five atoms)
-    let base: &[TopicFilter] = if thorough { &atoms[..] } else { &atoms[..5] };
+    // depth 2: members are atoms or depth-1 trees with <= 2 members (quick: over the first six atoms)
+    let base: &[TopicFilter] = if thorough { &atoms[..] } else { &atoms[..6] };
     let mut members: Vec<TopicFilter> = base.to_vec();
     for l in topic_lists(base, 2) {
         members.push(TopicFilter::And(l.clone()));
@@ -1232,7 +1235,7 @@ fn topic_filters(tier: &str) -> Vec<TopicFilter> {
 
 fn topic_metadata() -> Vec<BatchMetadata> {
     let mut out = Vec::new();
-    let metric_sets: [&[&str]; 7] = [&[], &["cpu"], &["mem"], &["cpu", "mem"], &["mem", "cpu"], &["disk"], &["disk", "cpu"]];
+    let metric_sets: [&[&str]; 9] = [&[], &["cpu"], &["mem"], &["cpu", "mem"], &["mem", "cpu"], &["disk"], &["disk", "cpu"], &["net"], &["disk", "net"]];
     for shard in ["s1", "s2", "s3"] {
         for tenant in [1u32, 2, 3] {
             for ms in metric_sets {
@@ -2270,7 +2273,7 @@ pub fn run(tier: &str) -> i32 {
     rep.set(
         "rule",
         format!(
-            "A (row filter): WHERE clauses = no WHERE; every comparison {{=,!=,<,<=,>,>=}} x both operand orders over metric_name, host, value_f64, value_i64, timestamp with literals of the column's type (132 forms),              plus int/float/string/negative/NULL literals against columns of another type and qualified/upper-case/quoted column spellings ({} forms in all); every AND/OR pair of the 132 core forms{}; pairs of each other form with 6 core forms;              all depth-2 trees '(a x b) y c', 'a x (b y c)', 'a x b y c' and '(a x b) y (c z d)' over a {}-comparison alphabet ({} compound clauses; the 4-comparison trees run on the batches of <= 2 rows and the all-combinations batch). Each clause x 2 schemas (timestamp as Timestamp(ns,UTC) / Int64) x every batch of 0..={} rows over an 8-row covering alphabet              plus one batch holding all {} value combinations (3 timestamps around the merge point x 2 metrics x nullable host/value_f64/value_i64/value_u64/dictionary env). Reference = DataFusion's evaluation of the same clause over a MemTable of those rows.              B (stream): every single comparison and every {}th compound clause x 2 schemas, flushed by a real Ingester after QueryNode::query_stream / query_stream_filtered subscribed; 8 topic filters and 3 flush sequences rotate.              C (topic): all TopicFilter trees of depth <= 2 over {{All, Shard(s1|s2), Tenant(1|2), Metrics([], [cpu], [mem], [cpu,mem])}} (members: <=3 at depth 1, <=2 at depth 2, empty And/Or included) x 63 batch metadata (3 shards x 3 tenants x 7 metric lists), matches() and delivery through FilteredReceiver.              D (websocket API): no WHERE, 12 comparisons and 12 AND/OR combinations x 2 schemas, sent as {{query, live:true}} to /api/v1/stream over a loopback socket; batches flushed by the Ingester after the handler subscribed; rows before the subscription instant may or may not be delivered. \
+            "A (row filter): WHERE clauses = no WHERE; every comparison {{=,!=,<,<=,>,>=}} x both operand orders over metric_name, host, value_f64, value_i64, timestamp with literals of the column's type (132 forms),              plus int/float/string/negative/NULL literals against columns of another type and qualified/upper-case/quoted column spellings ({} forms in all); every AND/OR pair of the 132 core forms{}; pairs of each other form with 6 core forms;              all depth-2 trees '(a x b) y c', 'a x (b y c)', 'a x b y c' and '(a x b) y (c z d)' over a {}-comparison alphabet ({} compound clauses; the 4-comparison trees run on the batches of <= 2 rows and the all-combinations batch). Each clause x 2 schemas (timestamp as Timestamp(ns,UTC) / Int64) x every batch of 0..={} rows over an 8-row covering alphabet              plus one batch holding all {} value combinations (3 timestamps around the merge point x 2 metrics x nullable host/value_f64/value_i64/value_u64/dictionary env). Reference = DataFusion's evaluation of the same clause over a MemTable of those rows.              B (stream): every single comparison and every {}th compound clause x 2 schemas, flushed by a real Ingester after QueryNode::query_stream / query_stream_filtered subscribed; 8 topic filters and 3 flush sequences rotate.              C (topic): all TopicFilter trees of depth <= 2 over {{All, Shard(s1|s2), Tenant(1|2), Metrics([], [cpu], [mem], [cpu,mem], [net,mem,cpu], [mem,cpu,cpu])}} (members: <=3 at depth 1, <=2 at depth 2, empty And/Or included) x 81 batch metadata (3 shards x 3 tenants x 9 metric lists), matches() and delivery through FilteredReceiver.              D (websocket API): no WHERE, 12 comparisons and 12 AND/OR combinations x 2 schemas, sent as {{query, live:true}} to /api/v1/stream over a loopback socket; batches flushed by the Ingester after the handler subscribed; rows before the subscription instant may or may not be delivered. \
              Non-trivial = A: cases in which a predicate (not only the merge point) removed at least one row; B: streams that delivered fewer batches than were flushed; C: receivers whose own counter shows at least one batch filtered out; D: websocket streams that delivered fewer rows than were flushed.",
             space.leaves.len(),
             if thorough { "" } else { " (quick: right operand in column-op-literal order with =, <, >= only)" },
